@@ -60,6 +60,10 @@ theorem step_noLeak_def (c : Case) (w : World) (s : Step) (h : s.isDef = true) :
   | defMk m => simp only [step, mkApply_noLeak_world]
   | _ => simp [Step.isDef] at h
 
+/-- a change of the process environment is invisible to the world of a definition -/
+theorem step_env (lk : Leak) (c : Case) (w : World) (s : Step) (h : s.isEnv = true) : (step lk c w s).1 = w := by
+  cases s <;> first | rfl | simp [Step.isEnv] at h
+
 /-- a user operation does the same whatever the leak parameter is -/
 theorem step_userOp_lk (lk lk' : Leak) (c : Case) (w : World) (s : Step) (h : s.isDef = false) :
     step lk c w s = step lk' c w s := by
@@ -77,10 +81,16 @@ theorem run_noLeak_erase (c : Case) (steps : List Step) :
       simp only [run, step_noLeak_def c w s h]
       exact ih w
     · have h' : s.isDef = false := by simpa using h
-      have hu : userOps (s :: rest) = s :: userOps rest := by simp [userOps, h']
-      rw [hu]
-      simp only [run]
-      exact ih _
+      by_cases he : s.isEnv = true
+      · have hu : userOps (s :: rest) = userOps rest := by simp [userOps, he]
+        rw [hu]
+        simp only [run, step_env noLeak c w s he]
+        exact ih w
+      · have he' : s.isEnv = false := by simpa using he
+        have hu : userOps (s :: rest) = s :: userOps rest := by simp [userOps, h', he']
+        rw [hu]
+        simp only [run]
+        exact ih _
 
 theorem userOps_of_all_defs (steps : List Step) (h : ∀ s ∈ steps, s.isDef = true) : userOps steps = [] := by
   simp only [userOps, List.filter_eq_nil_iff]
@@ -130,7 +140,7 @@ def bump (s : Step) (k : Nat) (st : CaState) : CaState :=
   match s with
   | .caValidator j => if j = k then { st with nValid := st.nValid + 1 } else st
   | .caDefault j => if j = k then { st with hasDefault := true } else st
-  | .defDeco .. | .defMk .. | .valAppend | .convAppend | .hookAppend | .metaSet => st
+  | .defDeco .. | .defMk .. | .valAppend | .convAppend | .hookAppend | .metaSet | .validatorsOff | .validatorsOn => st
 
 theorem caExpected_cons (s : Step) (rest : List Step) (k : Nat) (st : CaState) :
     caExpected (s :: rest) k st = caExpected rest k (bump s k st) := by
@@ -345,10 +355,17 @@ theorem run_allLeak_quiet (c : Case) (steps : List Step) :
       simp only [run, hw]
       exact ih w (hw ▸ hq.2)
     · have h' : s.isDef = false := by simpa using h
-      have hu : userOps (s :: rest) = s :: userOps rest := by simp [userOps, h']
-      rw [hu]
-      simp only [run]
-      exact ih _ hq.2
+      by_cases he : s.isEnv = true
+      · have hu : userOps (s :: rest) = userOps rest := by simp [userOps, he]
+        have hw := step_env allLeak c w s he
+        rw [hu]
+        simp only [run, hw]
+        exact ih w (hw ▸ hq.2)
+      · have he' : s.isEnv = false := by simpa using he
+        have hu : userOps (s :: rest) = s :: userOps rest := by simp [userOps, h', he']
+        rw [hu]
+        simp only [run]
+        exact ih _ hq.2
 
 theorem run_noLeak_results (c : Case) (steps : List Step) (w : World) (h : ∀ s ∈ steps, s.isDef = true) :
     (run noLeak c w steps).2 = steps.map (fun s => (step noLeak c w s).2) := by
@@ -358,5 +375,36 @@ theorem run_noLeak_results (c : Case) (steps : List Step) (w : World) (h : ∀ s
     have hs := h s List.mem_cons_self
     simp only [run, List.map_cons, step_noLeak_def c w s hs]
     rw [ih (fun t ht => h t (List.mem_cons_of_mem _ ht))]
+
+/-! ### the process environment: only the history's own switch operations move it -/
+
+def envVal : Step → Bool
+  | .validatorsOff => false
+  | _ => true
+
+theorem envRun_last (steps : List Step) :
+    ∀ r, envRun r steps = ((steps.filter (·.isEnv)).getLast?.map envVal).getD r := by
+  induction steps with
+  | nil => intro r; rfl
+  | cons s rest ih =>
+    intro r
+    cases s
+    case validatorsOff =>
+      rw [List.filter_cons_of_pos (by rfl), List.getLast?_cons]
+      simp only [envRun, ih]
+      cases (rest.filter (·.isEnv)).getLast? <;> simp [envVal]
+    case validatorsOn =>
+      rw [List.filter_cons_of_pos (by rfl), List.getLast?_cons]
+      simp only [envRun, ih]
+      cases (rest.filter (·.isEnv)).getLast? <;> simp [envVal]
+    all_goals
+      rw [List.filter_cons_of_neg (by simp [Step.isEnv])]
+      simp only [envRun, ih]
+
+theorem envRun_expected (steps : List Step) : envRun true steps = envExpected steps := by
+  rw [envRun_last, envExpected]
+  cases h : (steps.filter (·.isEnv)).getLast? with
+  | none => rfl
+  | some s => cases s <;> rfl
 
 end Attrs.C16
